@@ -10,3 +10,4 @@ def run(ses):
 
 confirm = c01.confirm
 replay = c01.replay
+BASELINE = ['c16']
